@@ -112,6 +112,26 @@ pub struct Machine {
     pub pulls: u64,
 }
 
+/// does the value contain a part the documentation leaves open?
+pub fn contains_unspec(v: &V) -> bool {
+    match v {
+        V::Unspec => true,
+        V::Arr(a) => a.items.iter().any(contains_unspec),
+        V::Tup(t) => t.iter().any(contains_unspec),
+        V::Struct(s) => s.values().any(contains_unspec),
+        V::Cell(c) => c.val.try_borrow().map(|x| contains_unspec(&x)).unwrap_or(false),
+        _ => false,
+    }
+}
+
+fn untracked<T>(v: &V, what: &str) -> R<T> {
+    if contains_unspec(v) {
+        giveup(&format!("{what} on an unspecified value"))
+    } else {
+        giveup(&format!("{what} on a value whose runtime type the reference does not track"))
+    }
+}
+
 fn giveup<T>(why: &str) -> R<T> {
     Err(Flow::GiveUp(why.to_string()))
 }
@@ -290,7 +310,7 @@ impl Machine {
             }
             S::IfSet(name, ty, e, t, el) => {
                 let v = self.expr(e, env)?;
-                let Some(vt) = tag(&v) else { return giveup("type test on a value whose runtime type the reference does not track") };
+                let Some(vt) = tag(&v) else { return untracked(&v, "type test") };
                 if sub(&vt, ty) {
                     let inner = bind(env, name, v);
                     self.scoped(t, &inner)
@@ -307,7 +327,7 @@ impl Machine {
                     match arm {
                         Arm::Other(b) => return self.scoped(b, env),
                         Arm::Type(name, ty, b) => {
-                            let Some(vt) = tag(&v) else { return giveup("type arm on a value whose runtime type the reference does not track") };
+                            let Some(vt) = tag(&v) else { return untracked(&v, "type arm") };
                             if sub(&vt, ty) {
                                 let inner = bind(env, name, v);
                                 return self.scoped(b, &inner);
@@ -356,7 +376,7 @@ impl Machine {
                 loop {
                     self.tick()?;
                     let v = self.expr(e, env)?;
-                    let Some(vt) = tag(&v) else { return giveup("type test on a value whose runtime type the reference does not track") };
+                    let Some(vt) = tag(&v) else { return untracked(&v, "type test") };
                     if !sub(&vt, ty) {
                         break;
                     }
@@ -486,7 +506,7 @@ impl Machine {
                 if !more {
                     return Ok(tup(vec![V::Bool(false), V::Unspec]));
                 }
-                let Some(xt) = tag(&x) else { return giveup("type filter on a value whose runtime type the reference does not track") };
+                let Some(xt) = tag(&x) else { return untracked(&x, "type filter") };
                 if sub(&xt, ty) {
                     return Ok(tup(vec![V::Bool(true), x]));
                 }
